@@ -18,6 +18,7 @@ THEOREMS = [
     "Ebv.C19.paths_agree_get", "Ebv.C19.paths_agree_set", "Ebv.C19.paths_agree_copy",
     "Ebv.C19.paths_agree_get_bit", "Ebv.C19.paths_agree_test", "Ebv.C19.paths_agree_set_bit",
     "Ebv.C19.py_roundtrip", "Ebv.C19.prog_roundtrip", "Ebv.C19.bit_roundtrip",
+    "Ebv.C19.step_agree", "Ebv.C19.run_agree", "Ebv.C19.rel_init",
     "Ebv.C19.prog_addr_in_payload", "Ebv.C19.resolve_packet", "Ebv.C19.resolve_process", "Ebv.C19.width_table",
 ]
 TRUSTED = ["hand-written model Ebv.ProcVar of PacketVar.get/set (Python path) and of the code Memory.calculate/_set emit for "
@@ -225,7 +226,7 @@ class Impl:
 
 
 def fmt_line(st, addrs, pyf, pyv, pyreads, fastf, fastv, fastreads):
-    j = lambda xs: "-" if xs is None else ",".join(str(int(x)) for x in xs)
+    j = lambda xs: "-" if xs is None else xs if isinstance(xs, str) else ",".join(str(int(x)) for x in xs)
     return (f"starts={j(st)} addrs={j(addrs)} py={pyf if isinstance(pyf, str) else pyf.hex()} pyv={j(pyv)} reads={j(pyreads)} "
             f"prog={fastf.hex()} progv={j(fastv)} reads={j(fastreads)}")
 
@@ -244,10 +245,14 @@ def read_all(G, case, data):
 
 
 def check_one(ctx, impl, case):
-    from ebpfcat.ebpfcat import SyncManager
     lay = layout(case)
-    S, F = impl.groups(case)
     st = starts(lay, case)
+    try:
+        S, F = impl.groups(case)
+    except Exception as e:        # the working tree cannot build the groups / generate the program for this configuration
+        impl.key = None
+        ctx.require(False, "sync groups cannot be built / program cannot be generated", case, f"{type(e).__name__}: {e}", "build")
+        return "build-error", b"", True, False, sorted(opkind(case, lay, o) for o in case["ops"])
     # layout and offset resolution of the real objects against the independent one
     for G, nm in ((S, "slow"), (F, "fast")):
         real = {(ti, sm.value): off for ti, t in enumerate(G["terms"]) if t in G["sg"].pdo_assign
@@ -308,7 +313,7 @@ def pick_byte(rng):
 def gen_config(rng):
     nterm = rng.choice([1, 1, 2, 2, 3])
     positions = rng.sample(range(0, 40), nterm)
-    terms, slots = [], []          # slots: (ti, sm, offset, size) declared in the terminal's pdos table
+    terms = []
     for ti in range(nterm):
         pdos, sizes = [], {}
         for sm, base_index in ((IN, 0x6000), (OUT, 0x7000)):
@@ -526,11 +531,18 @@ def run(ctx):
             cases.append(case)
             outs.append(out)
             lines.append(model_line(case, layout(case), pyframe))
+        if len(cases) >= 5000:               # the model side in batches, to bound memory in the thorough tier
+            flush(ctx, cases, outs, lines)
+    flush(ctx, cases, outs, lines)
     ctx.extra["configurations"] = nconf
+
+
+def flush(ctx, cases, outs, lines):
     model = ctx.drive(DRIVER, lines, "procvar")
     if model is not None:
         for c, i, m in zip(cases, outs, model):
             ctx.agree("process variables: starts, frames and values on both paths", c, i, m)
+    del cases[:], outs[:], lines[:]
 
 
 def replay(ctx, case):
@@ -543,7 +555,9 @@ LEVEL_TEXT = ("Lean 4 proof over a hand-written model of both paths: for all fra
               "change only the variable's own bytes / own bit (the other 7 bits and every other byte are unchanged), Python get on the EtherCAT "
               "frame equals the program's load + sign extension / mask + shift on the Ethernet frame with that payload (modulo the register "
               "width), both sets and var-to-var copies leave the same frame, and values round-trip on each format's range; offsets resolve to "
-              "pdo_assign + position (+ Struct offset) and + ETHERNET_HEADER (regenerated) for the program. Tie: three-way exact correspondence "
+              "pdo_assign + position (+ Struct offset) and + ETHERNET_HEADER (regenerated) for the program; run_agree: for every list of "
+              "statements of a device (var/bit = var/bit/DeviceVar/constant, DeviceVar = var/bit) the program path leaves exactly the frame "
+              "and DeviceVar values of the Python path. Tie: three-way exact correspondence "
               "(real Python path, real bytecode re-assembled every run and interpreted, model) on random terminals / PDO maps / devices.")
 LEVEL_NOTE = ("trusted: Lean kernel + standard axioms; hand model validated by differential execution (not verified against the bytecode); "
               "interpreter semantics; unrepresentable values, bit numbers > 7, direct Struct links are outside the property")
